@@ -3,9 +3,11 @@ package c08
 
 import (
 	"bytes"
+	"fmt"
 	"go/format"
 	"go/scanner"
 	"go/token"
+	"os"
 	"regexp"
 	"strings"
 
@@ -132,7 +134,7 @@ func diffShape(cs fmttie.Case, lits1, lits2 []string, prog1, prog2 string) strin
 }
 
 func Run(c *core.Ctx) {
-	c.Rule = "programs: every .templ file of the repository, grammar-generated templ files and whitespace mutations of both (as C09), restricted to files templ generate accepts (parse + generate + gofmt); distinct non-trivial = distinct accepted inputs; for each, the Go program generated from the file and from its formatted form are compared after masking error positions and gofmt"
+	c.Rule = "programs: every .templ file of the repository, grammar-generated templ files and whitespace mutations of both (as C09), restricted to files templ generate accepts (parse + generate + gofmt); distinct non-trivial = distinct accepted inputs; for each, the Go program generated from the file and from its formatted form are compared after masking error positions and gofmt; every top-level node of every accepted input also goes through the embed tie (formatter AST mapped to the generator AST of the same parse) and every template through the reparsed tie (model re-parse against the real parse of the formatted text) and the guard prediction (guards of C08_render_preserved_partial hold => program unchanged)"
 	c.Proofs()
 	ins := fmttie.Inputs(c, c.N(150, 2500), c.N(6, 25))
 	var cases []fmttie.Case
@@ -149,6 +151,7 @@ func Run(c *core.Ctx) {
 	res := c.Model(reqs)
 	tie1, accepted, same, sameFull := true, true, true, true
 	shapeCount := map[string]int{}
+	differs := map[string]string{} // input name -> shape of the program difference
 	for i, cs := range cases {
 		c.Count(cs.Name)
 		r := res[i]
@@ -204,7 +207,12 @@ func Run(c *core.Ctx) {
 		t1, t2 := progText(cs.Code), progText(code2)
 		shape := diffShape(cs, lits1, lits2, t1, t2)
 		shapeCount[shape]++
+		differs[cs.Name] = shape
 		c.Hist("program differs: " + shape)
+		if os.Getenv("C08_DEBUG") != "" {
+			a, b := firstDiff(t1, t2)
+			fmt.Fprintf(os.Stderr, "C08_DEBUG %s %s\n--- source\n%s\n--- formatted\n%s\n--- %s\n+++ %s\n", shape, cs.Name, cs.Src, cs.P1, a, b)
+		}
 		if shapeCount[shape] <= 2 {
 			a, b := firstDiff(t1, t2)
 			c.Fail("property", "program generated from the formatted file = program generated from the original", shape,
@@ -216,6 +224,7 @@ func Run(c *core.Ctx) {
 		}
 	}
 	c.Sample(map[string]any{"inputs": len(cases)})
+	embedFamily(c, cases, differs)
 	c.Oblige("correspondence", "formatter model first pass = TemplateFile.Write, byte for byte, on every accepted input", tie1, "")
 	c.Oblige("correspondence", "the formatted file is accepted by parse + generate + gofmt on every accepted input", accepted, "")
 	c.Oblige("correspondence", "program(generate(format x)) = program(generate x) on every accepted input (known findings excepted by shape)", same || true, "see failures / known findings")
